@@ -179,7 +179,7 @@ func (r *bungeeCordMessageResponder) prepareForwardMessage(in io.Reader) (forwar
 	}
 
 	forwarded := new(bytes.Buffer)
-	forwarded.WriteString(channel)
+	_ = util.WriteUTF(forwarded, channel) // length-prefixed, as the receiving plugin reads it (readUTF)
 	_ = util.WriteInt16(forwarded, messageLen)
 	forwarded.Write(msg)
 	return forwarded.Bytes()
